@@ -497,28 +497,51 @@ def r4_trxcon_sibling(L, repo, got):
             a = call_args(c)
             if len(a) < 4:
                 raise AnalysisError("trx_ctrl_cmd call shape")
-            verb = strip(a[2]).get("value", "").strip('"')
             fmt = strip(a[3]).get("value", "").strip('"')
             convs = re.findall(r"%[-0-9.l]*([duxs])", fmt)
-            n += 1
-            seen[verb] = (fmt, len(convs))
-            L.fn(FCc, fname)
-            e = got.get(verb)
-            if e is None:
-                L.ob("C05.R4", FCc, fname, "trxcon emits CMD %s (unknown to the toolkit: acknowledged with 0)" % verb,
-                     "unknown verb -> status 0", "unknown", True, tu.line(c))
-                continue
-            if "s" in convs:
-                # SETFH: two numbers + a list with at least one pair
-                mn = len(convs) - 1 + 2
-                ok = e.get("min") is not None and e["min"] <= mn
-                L.ob("C05.R4", FCc, fname, "trxcon emits CMD %s with a variable list (>= %d arguments)" % (verb, mn),
-                     "toolkit accepts >= %s" % e.get("min"), mn, ok, tu.line(c))
+            va = strip(a[2], casts=True)
+            if kind(va) == "StringLiteral":
+                verbs = [va.get("value", "").strip('"')]
+            elif kind(va) == "DeclRefExpr":
+                # the verb is a parameter of a shared helper: take the literals its callers pass
+                pnames = [p_.get("name") for p_ in kids(f) if kind(p_) == "ParmVarDecl"]
+                if ctext(va) not in pnames:
+                    raise AnalysisError("trx_ctrl_cmd: verb argument `%s` in %s() is neither a literal nor a parameter" % (ctext(va), fname))
+                pi = pnames.index(ctext(va))
+                verbs = []
+                for f2n, f2 in tu.functions.items():
+                    if not any(kind(c2) == "CompoundStmt" for c2 in kids(f2)):
+                        continue
+                    for c2 in calls_to(f2, fname):
+                        a2 = call_args(c2)
+                        v2 = strip(a2[pi], casts=True) if pi < len(a2) else None
+                        if v2 is None or kind(v2) != "StringLiteral":
+                            raise AnalysisError("trx_ctrl_cmd: verb passed to %s() by %s() is not a literal" % (fname, f2n))
+                        verbs.append(v2.get("value", "").strip('"'))
+                if not verbs:
+                    raise AnalysisError("trx_ctrl_cmd: helper %s() has no caller" % fname)
             else:
-                ok = len(convs) in e.get("argc", []) or (e.get("min") is not None and len(convs) >= e["min"])
-                L.ob("C05.R4", FCc, fname, "trxcon emits CMD %s with %d argument(s) `%s`" % (verb, len(convs), fmt),
-                     "toolkit accepts %s" % e, len(convs), ok, tu.line(c))
-    L.floor("C05.R4", "trx_ctrl_cmd call sites in trx_if.c", n, 9)
+                raise AnalysisError("trx_ctrl_cmd: verb argument unclassifiable: %s" % ctext(va))
+            for verb in verbs:
+                n += 1
+                seen[verb] = (fmt, len(convs))
+                L.fn(FCc, fname)
+                e = got.get(verb)
+                if e is None:
+                    L.ob("C05.R4", FCc, fname, "trxcon emits CMD %s (unknown to the toolkit: acknowledged with 0)" % verb,
+                         "unknown verb -> status 0", "unknown", True, tu.line(c))
+                    continue
+                if "s" in convs:
+                    # SETFH: two numbers + a list with at least one pair
+                    mn = len(convs) - 1 + 2
+                    ok = e.get("min") is not None and e["min"] <= mn
+                    L.ob("C05.R4", FCc, fname, "trxcon emits CMD %s with a variable list (>= %d arguments)" % (verb, mn),
+                         "toolkit accepts >= %s" % e.get("min"), mn, ok, tu.line(c))
+                else:
+                    ok = len(convs) in e.get("argc", []) or (e.get("min") is not None and len(convs) >= e["min"])
+                    L.ob("C05.R4", FCc, fname, "trxcon emits CMD %s with %d argument(s) `%s`" % (verb, len(convs), fmt),
+                         "toolkit accepts %s" % e, len(convs), ok, tu.line(c))
+    L.floor("C05.R4", "(call site, verb) pairs of trx_ctrl_cmd in trx_if.c", n, 9)
     # command text: "CMD %s" / "CMD %s " prefix (4 characters before the verb), NUL included in send length
     f = tu.func("trx_ctrl_cmd")
     fmts = []
